@@ -205,6 +205,9 @@ Proof. exact is_leap_year_tie. Qed.
 Theorem c16_source_month_len_days : forall y m, src_month_len_days y m = month_len_days y m.
 Proof. exact month_len_days_tie. Qed.
 
+Theorem c16_translation_complete : src_problems_time = 0%nat.
+Proof. exact time_translated. Qed.
+
 Print Assumptions c16_new_correct.
 Print Assumptions c16_result_year_bound.
 Print Assumptions c16_no_intermediate_overflow.
@@ -232,3 +235,4 @@ Print Assumptions c16_oracle_add_sound.
 Print Assumptions c16_oracle_iso_sound.
 Print Assumptions c16_source_is_leap_year.
 Print Assumptions c16_source_month_len_days.
+Print Assumptions c16_translation_complete.
